@@ -32,9 +32,8 @@ def _recursion_args(stmts, fname):
 def run_p6(chk, P6, repo):
     m = repo.module('pharmpy.internals.sequence.lcs')
     f = m.functions.get('_diff')
-    mat = m.functions.get('_matrix')
-    if f is None or mat is None:
-        raise AnalysisError('lcs._diff / _matrix not found')
+    if f is None:
+        raise AnalysisError('lcs._diff not found')
     c, x, y, i, j = f.params[:5]
     # walk the if/elif chain
     top = next((s_ for s_ in f.node.body if isinstance(s_, ast.If)), None)
@@ -94,18 +93,36 @@ def run_p6(chk, P6, repo):
                       witness='one update_source() that removes a theta and changes the following one, or '
                               'create_joint_distribution on the trailing etas of a multi-value diagonal $OMEGA: values are '
                               'written into the wrong record')
-    # matrix recurrence
+    # matrix recurrence: two nested loops over the (enumerated) sequences, wherever in the module they live
     rec_ok = False
-    for n in walk_no_nested(mat.node):
-        if isinstance(n, ast.If) and isinstance(n.test, ast.Compare) and isinstance(n.test.ops[0], ast.Eq):
-            t_ = [unparse(s_) for s_ in n.body]
-            e_ = [unparse(s_) for s_ in n.orelse]
-            rec_ok = any('[i][j] + 1' in s_ for s_ in t_) and any('max(' in s_ and '[i + 1][j]' in s_ and '[i][j + 1]' in s_
-                                                                   for s_ in e_)
-    chk.instance(P6, f'_matrix recurrence: equal -> diagonal + 1, else max(left, up): {rec_ok}')
+    where = None
+    for g in m.functions.values():
+        for outer in [n for n in walk_no_nested(g.node) if isinstance(n, ast.For)]:
+            for inner in [n for n in ast.walk(outer) if isinstance(n, ast.For) and n is not outer]:
+                def idx(loop):
+                    if isinstance(loop.target, ast.Tuple) and isinstance(loop.iter, ast.Call) \
+                            and dotted(loop.iter.func) == 'enumerate' and isinstance(loop.target.elts[0], ast.Name):
+                        return loop.target.elts[0].id
+                    if isinstance(loop.target, ast.Name) and isinstance(loop.iter, ast.Call) and dotted(loop.iter.func) == 'range':
+                        return loop.target.id
+                    return None
+                iv, jv = idx(outer), idx(inner)
+                if not iv or not jv:
+                    continue
+                for n in ast.walk(inner):
+                    if isinstance(n, ast.If) and isinstance(n.test, ast.Compare) and isinstance(n.test.ops[0], ast.Eq):
+                        t_ = [unparse(s_) for s_ in n.body]
+                        e_ = [unparse(s_) for s_ in n.orelse]
+                        if any(f'[{iv}][{jv}] + 1' in s_ for s_ in t_) and any(
+                                'max(' in s_ and f'[{iv} + 1][{jv}]' in s_ and f'[{iv}][{jv} + 1]' in s_ for s_ in e_):
+                            rec_ok, where = True, g
+    if where is None and not any(isinstance(n, ast.For) and any(isinstance(x, ast.For) and x is not n for x in ast.walk(n))
+                                 for g in m.functions.values() for n in walk_no_nested(g.node)):
+        raise AnalysisError('P6: the computation of the LCS length matrix was not found in lcs.py')
+    chk.instance(P6, f'LCS matrix recurrence ({where.name if where else "?"}): equal -> diagonal + 1, else max(left, up): {rec_ok}')
     if not rec_ok:
-        chk.violation(P6, m.rel, '_matrix', 'LCS recurrence', 'the length matrix is not the LCS recurrence',
-                      line=mat.node.lineno, witness='any edit of a parameter list')
+        chk.violation(P6, m.rel, 'lcs', 'LCS recurrence', 'the length matrix is not the LCS recurrence',
+                      line=1, witness='any edit of a parameter list')
 
 
 def run_p7(chk, P7, repo):
